@@ -14,7 +14,7 @@ import linegen as lg
 
 PROPERTY = 'C01'
 HELPERS = os.path.join(hsupport.VERIF, 'helpers/bin')
-CICADA = os.path.join(hsupport.VERIF, 'build/native/debug/cicada')
+CICADA = os.path.join(hsupport.VERIF, 'build/bin/debug/cicada')
 BUDGET = {'quick': 420, 'thorough': 3000}
 BOUNDS = {'quick': dict(max_args=2, max_chars=3, pos_chars=2), 'thorough': dict(max_args=3, max_chars=4, pos_chars=3)}
 ASSUMPTIONS = [
